@@ -81,7 +81,7 @@ Ltac destruct_sock s :=
 Definition txv (s : socket) :=
   (s_state s, s_tx_buffer s, s_local_seq_no s, s_remote_last_seq s, s_remote_win_len s,
    s_remote_win_scale s, s_timer s, s_remote_mss s, s_remote_win_shift s,
-   s_syn_unacked_in_fin_wait s).
+   s_syn_unacked_in_fin_wait s, rt_max_seq_sent (s_rtte s)).
 
 (* ------------------------------------------------------------------------------------------ *)
 (* ghost state                                                                                  *)
@@ -166,12 +166,24 @@ Definition tm_inv_f (g : ghost) (tm : timer) (win len : Z) : Prop :=
 Definition tm_inv (g : ghost) (s : socket) : Prop :=
   tm_inv_f g (s_timer s) (s_remote_win_len s) (rb_len (s_tx_buffer s)).
 
-Definition inv (g : ghost) (s : socket) : Prop := tx_inv g s /\ tm_inv g s.
+(* keep-alive clauses: nothing was ever sent beyond the stream and its FIN; the RTT estimator's
+   "highest sequence number sent" belongs to the current epoch and lies at or below the highest
+   offset reached; the MSS in use respects the clamp; a listening socket has a pristine estimator *)
+Definition kinv (g : ghost) (s : socket) : Prop :=
+  g_hw g <= 1 + l_len (g_stream g) + b2z (g_fin g) /\
+  match rt_max_seq_sent (s_rtte s) with
+  | Some m => exists x, m = sq (g_iss g + x) /\ 1 <= x <= g_hw g
+  | None => True
+  end /\
+  tcp_MIN_REMOTE_MSS <= s_remote_mss s /\
+  (s_state s = Listen -> rt_max_seq_sent (s_rtte s) = None).
+
+Definition inv (g : ghost) (s : socket) : Prop := tx_inv g s /\ tm_inv g s /\ kinv g s.
 
 Lemma inv_txv : forall g s s', txv s' = txv s -> inv g s -> inv g s'.
 Proof.
-  intros g s s' E H. unfold txv in E. injection E as E1 E2 E3 E4 E5 E6 E7 E8 E9 E10.
-  unfold inv, tx_inv, tm_inv in *. rewrite E1, E2, E3, E4, E5, E6, E7, E10. exact H.
+  intros g s s' E H. unfold txv in E. injection E as E1 E2 E3 E4 E5 E6 E7 E8 E9 E10 E11.
+  unfold inv, tx_inv, tm_inv, kinv in *. rewrite E1, E2, E3, E4, E5, E6, E7, E8, E10, E11. exact H.
 Qed.
 
 Lemma txv_proj : forall a b, txv a = txv b ->
@@ -184,11 +196,76 @@ Proof.
   intros a b H. unfold txv in H. injection H. intros. repeat split; assumption.
 Qed.
 
+Lemma txv_msx : forall a b, txv a = txv b ->
+  rt_max_seq_sent (s_rtte a) = rt_max_seq_sent (s_rtte b).
+Proof. intros a b H. unfold txv in H. injection H. intros. assumption. Qed.
+
 Lemma tx_inv_txv : forall g s s', txv s' = txv s -> tx_inv g s -> tx_inv g s'.
 Proof.
-  intros g s s' E H. unfold txv in E. injection E as E1 E2 E3 E4 E5 E6 E7 E8 E9 E10.
+  intros g s s' E H. unfold txv in E. injection E as E1 E2 E3 E4 E5 E6 E7 E8 E9 E10 E11.
   unfold tx_inv in *. rewrite E1, E2, E3, E4, E5, E6, E10. exact H.
 Qed.
+
+(* SND.NXT never lies beyond the FIN *)
+Lemma una_flight_bound : forall g st tx lsn rls win wsc fw,
+  tx_inv_f g st tx lsn rls win wsc fw ->
+  g_una g + g_flight g <= 1 + l_len (g_stream g) + b2z (g_fin g).
+Proof.
+  intros g st tx lsn rls win wsc fw (Hwf & _ & Ha & Hlen & _ & _ & _ & Hf & _ & Hph & _).
+  pose proof Hwf as (Hl0 & _). pose proof (l_len_nonneg (g_stream g)).
+  unfold g_una, g_budget, phase_ok in *. destruct (g_phase g).
+  - destruct (g_fin g); cbn [b2z]; lia.
+  - lia.
+  - destruct Hph as (L0 & F0 & G0 & _). rewrite G0. cbn [b2z]. lia.
+Qed.
+
+(* one step of the keep-alive clauses: same epoch, the stream only extended, closing monotone, the
+   high-water mark raised at most to the new SND.NXT *)
+Lemma kinv_step : forall g s g' s' more,
+  kinv g s -> tx_inv g' s' ->
+  g_iss g' = g_iss g -> g_stream g' = g_stream g ++ more -> (g_fin g = true -> g_fin g' = true) ->
+  g_hw g <= g_hw g' -> g_hw g' <= Z.max (g_hw g) (g_una g' + g_flight g') ->
+  rt_max_seq_sent (s_rtte s') = rt_max_seq_sent (s_rtte s) ->
+  tcp_MIN_REMOTE_MSS <= s_remote_mss s' ->
+  (s_state s' = Listen -> rt_max_seq_sent (s_rtte s') = None) ->
+  kinv g' s'.
+Proof.
+  intros g s g' s' more (K1 & K2 & K3 & K4) Htx Ei Es Ef Hh1 Hh2 Em Hm Hl.
+  pose proof (una_flight_bound _ _ _ _ _ _ _ _ Htx) as Hb.
+  unfold kinv. rewrite Em, Ei.
+  split.
+  - rewrite Es in *. rewrite l_len_app in *. pose proof (l_len_nonneg more).
+    assert (b2z (g_fin g) <= b2z (g_fin g')).
+    { destruct (g_fin g); [rewrite (Ef eq_refl); lia|destruct (g_fin g'); cbn [b2z]; lia]. }
+    lia.
+  - split; [|split; [exact Hm|rewrite <- Em; exact Hl]].
+    destruct (rt_max_seq_sent (s_rtte s)) as [m|]; [|exact I].
+    destruct K2 as (x & Ex & Hx). exists x. split; [exact Ex|lia].
+Qed.
+
+Lemma kinv_fields : forall g s s',
+  kinv g s -> rt_max_seq_sent (s_rtte s') = rt_max_seq_sent (s_rtte s) ->
+  s_remote_mss s' = s_remote_mss s -> (s_state s' = Listen -> s_state s = Listen) ->
+  kinv g s'.
+Proof.
+  intros g s s' (K1 & K2 & K3 & K4) Em Es Hl. unfold kinv. rewrite Em, Es.
+  split; [exact K1|]. split; [exact K2|]. split; [exact K3|]. intros X. apply K4. auto.
+Qed.
+
+Lemma kinv_fields2 : forall g s g' s',
+  kinv g s -> g_iss g' = g_iss g -> g_stream g' = g_stream g -> g_fin g' = g_fin g ->
+  g_hw g' = g_hw g ->
+  rt_max_seq_sent (s_rtte s') = rt_max_seq_sent (s_rtte s) ->
+  s_remote_mss s' = s_remote_mss s -> (s_state s' = Listen -> s_state s = Listen) ->
+  kinv g' s'.
+Proof.
+  intros g s g' s' (K1 & K2 & K3 & K4) E1 E2 E3 E4 Em Es Hl. unfold kinv.
+  rewrite Em, Es, E1, E2, E3, E4.
+  split; [exact K1|]. split; [exact K2|]. split; [exact K3|]. intros X. apply K4. auto.
+Qed.
+
+Lemma rtte_on_rto_msx : forall r, rt_max_seq_sent (rtte_on_rto r) = rt_max_seq_sent r.
+Proof. intros. unfold rtte_on_rto. destruct (_ >=? 3); reflexivity. Qed.
 
 (* the congestion controller is not constrained: every lemma below holds for NoControl, Reno in any
    state and any other controller state (an arbitrary reported window) *)
